@@ -125,20 +125,48 @@ def make_classes(t):
             if table_id.lower() != 'b':
                 return None
             return PyIterator({'type': 'finite', 'rows': self.rows}, alias, self.trace, None)
-    return PyIterator, PyWriter, PyRegistry
+    import io as _io
+
+    class PyCSVWriter(t.csv.CSVWriter):
+        """The real CSV writer (which rewrites the record it is given in place) over an in-memory text stream."""
+        def __init__(self, trace):
+            self.sink = _io.StringIO()
+            t.csv.CSVWriter.__init__(self, self.sink, False, None, ',', 'quoted')
+            self.trace = trace
+
+        def write(self, fields):
+            self.trace['pulls_at_write'].append(self.trace['pulls'])
+            return t.csv.CSVWriter.write(self, fields)
+
+        @property
+        def rows(self):
+            return self.sink.getvalue().split('\n')[:-1]
+
+    return PyIterator, PyWriter, PyRegistry, PyCSVWriter
 
 
 _classes = {}
 
 
-def run_py(query, producer, join_rows, max_pulls=None):
+def render_csv(rows):
+    """Expected rows as the real CSV writer prints them (one fresh writer, no query involved)."""
     t = core.load_tree()
     if 'c' not in _classes:
         _classes['c'] = make_classes(t)
-    PyIterator, PyWriter, PyRegistry = _classes['c']
+    wr = _classes['c'][3]({'pulls': 0, 'pulls_at_write': []})
+    for r in rows:
+        wr.write(list(r))
+    return wr.rows
+
+
+def run_py(query, producer, join_rows, max_pulls=None, csv_writer=False):
+    t = core.load_tree()
+    if 'c' not in _classes:
+        _classes['c'] = make_classes(t)
+    PyIterator, PyWriter, PyRegistry, PyCSVWriter = _classes['c']
     trace = {'pulls': 0, 'pulls_at_write': []}
     it = PyIterator(producer, 'a', trace, max_pulls)
-    wr = PyWriter(trace)
+    wr = PyCSVWriter(trace) if csv_writer else PyWriter(trace)
     reg = PyRegistry(join_rows, trace) if join_rows is not None else None
     warnings = []
     try:
@@ -155,7 +183,7 @@ def run_py(query, producer, join_rows, max_pulls=None):
     return {'outcome': outcome, 'rows': rows, 'pulls': trace['pulls'], 'pulls_at_write': trace['pulls_at_write']}
 
 
-def run_js(query, producer, join_rows, max_pulls=None):
+def run_js(query, producer, join_rows, max_pulls=None, csv_writer=False):
     req = {'kind': 'query', 'query': query, 'producer': producer, 'max_pulls': max_pulls}
     if join_rows is not None:
         req['join_rows'] = join_rows
@@ -311,6 +339,8 @@ def generate(rng, tier, idx):
         keys = ['v1', 'v2', 'x', 'nokey', 'v1']
         sc['join_rows'] = [[rng.choice(keys), rng.choice(['J1', 'J2', 'J3']), rng.choice(['m', 'n'])] for _ in range(rng.choice([0, 1, 2, 3, 4, 5]))]
     sc['engines'] = ['py', 'js']
+    # a quarter of the runs print through the real CSV writer (Python engine), which rewrites the records it receives in place
+    sc['writer'] = 'csv' if rng.random() < 0.25 else 'list'
     if rng.random() < 0.12:
         # aggregate shape: only the bound-prefix clause applies (what the groups contain is C03's subject)
         key = rng.choice(['a2', 'a1', 'a3'])
@@ -362,8 +392,10 @@ def check_engine(sc, eng, counters, res, digest_parts):
     buffering = is_buffering(sc)
     nontrivial = False
 
-    def do(query, prod, max_pulls=None):
-        r = run(query, prod, join_rows, max_pulls)
+    use_csv = sc.get('writer') == 'csv' and eng == 'py'
+
+    def do(query, prod, max_pulls=None, plain=False):
+        r = run(query, prod, join_rows, max_pulls, csv_writer=(use_csv and not plain))
         res['evals'] += 1
         res['steps'] += r['pulls'] + len(r['pulls_at_write'])
         digest_parts.append([eng, query, r['outcome'], r['rows'], r['pulls']])
@@ -380,7 +412,7 @@ def check_engine(sc, eng, counters, res, digest_parts):
             raw = {'rows': full['rows'], 'pulls': full['pulls']}
             expected = full['rows']
         else:
-            raw = do(build_raw_query(sc), producer)
+            raw = do(build_raw_query(sc), producer, plain=True)
             if raw['outcome'] != ['ok']:
                 bump(counters, 'discard.raw_query_fails')
                 return 'discard'
@@ -390,6 +422,9 @@ def check_engine(sc, eng, counters, res, digest_parts):
             except TypeError:
                 bump(counters, 'discard.mixed_type_sort_key')
                 return 'discard'
+            if use_csv:
+                expected = render_csv(expected)
+                bump(counters, 'writer.real_csv_writer')
             bump(counters, 'pure_clause_cases')
             if full['outcome'] != ['ok'] or not same(full['rows'], expected):
                 return ('order_model', {'got': full['rows'], 'outcome': full['outcome'], 'expected': expected, 'raw': raw['rows']})
